@@ -494,6 +494,9 @@ for f in ('phase0', 'altair', 'bellatrix', 'capella', 'deneb'):
     EXTRA.setdefault('eth2/beacon/%s:BeaconStateView.ProcessBlock' % f, []).append(_DG)
 for k in ('eth2/beacon/common:PostSlotTransition', 'eth2/beacon/common:StateTransition', 'eth2/beacon/phase0:ProcessDeposits'):
     EXTRA.setdefault(k, []).append(_DG)
+# fork upgrades record the fork view they build
+for k in ('eth2/beacon:StandardUpgradeableBeaconState.UpgradeMaybe', 'eth2/beacon/common:ProcessSlots', 'eth2/beacon/common:StateTransition'):
+    EXTRA.setdefault(k, []).append('//@   assigns ghost(n_fork_view), ghost(last_fork_view)')
 sig = re.compile(r'^func (\((\w+) (\*?)(\w+)\) )?(\w+)\((.*)\) (.*) \{$')
 out = collections.defaultdict(list)
 for root, _, files in os.walk(os.path.join(REPO, 'eth2/beacon')):
